@@ -113,6 +113,10 @@ func vProbe10(kind int, tx, ty float64) Object {
 		return NewGeometryCollection([]Object{NewPoint(p(0, 0)), vLineObj(p(1, 0), p(1, 1)), NewPolygon(nil)})
 	case 6: // empty part first, and a feature wrapping an empty collection last
 		return NewGeometryCollection([]Object{vLineObj(p(3, 3)), NewPoint(p(0, 0)), NewFeature(NewGeometryCollection(nil), "")})
+	case 7: // a rectangle large enough to hold every fixed child configuration
+		return NewRect(geometry.Rect{Min: p(0, 0), Max: p(12, 12)})
+	case 8: // a large triangle
+		return vTriObj(p(0, 0), p(30, 0), p(0, 30))
 	}
 	panic("bad probe")
 }
@@ -207,7 +211,7 @@ func H_Coll(p []int) {
 	vAssert(obj.Contains(X) == (!allEmpty && hasPart && allIn), "C10.contains")
 
 	// within (X a leaf object): non-empty and every child within X
-	if pk < 4 {
+	if pk < 4 || pk >= 7 {
 		allW := true
 		for _, c := range kids {
 			if !c.Within(X) {
